@@ -22,6 +22,11 @@ SPEC (a dict; everything the source does not say itself)
   outs      [(local name, type)]   locals of a fragment that are results (fields of the returned record)
   actions   {call statement text: lean term}, action_type: calls with effects outside the model become entries of
             the trace field `acts : List action_type`
+  raise_state  False: an exception discards the attribute writes (a constructor: the object is never seen) — the result
+            is `Except Err St` instead of `Res St α`
+  drop_calls   call statements the spec declares outside the model (`super().__init__(src_packet)`)
+  calls     {python function name: {lean, args, ret, raises}}   other translated functions this one calls
+  fuel      {start of a `while` statement: python expression}   an upper bound of its rounds (see `PyRt.whileS`)
   exits     True: the value of the definition is how the fragment was left (`PyRt.Exit`: fall / cont / brk / ret)
 types: Int, Nat (an int known to be ≥ 0), Bool, Bytes, List T, Set T (a Python set; only `in` and `|` under `in`),
        Option T, Dict K V, anything else = an opaque type with decidable equality (only == != and assignment).
@@ -153,6 +158,7 @@ class Translator:
         self.joins = {}
         self.init_used = set()
         self.synthetic = set()
+        self.owned = set()
 
     # ------------------------------------------------------------------------------------------- helpers
     def bad(self, node, reason):
@@ -195,6 +201,8 @@ class Translator:
             if v.typ.startswith("Option "):
                 self.bad(node, f"type {v.typ} where {typ} is expected")
             return f"(some {self.coerce(v, inner, node)})"
+        if v.typ == "EmptyList" and typ.startswith("List "):
+            return f"([] : {ty(typ)})"
         if v.typ == "EmptyDict" and typ in self.spec.get("empty_dict", {}):
             return self.spec["empty_dict"][typ]
         self.bad(node, f"type {v.typ} where {typ} is expected")
@@ -242,6 +250,21 @@ class Translator:
 
     def e_Attribute(self, node, env):
         self.bad(node, "attribute read that the spec does not list as a place or constant")
+
+    def e_Tuple(self, node, env):
+        els = [self.expr(e, env) for e in node.elts]
+        if len(els) < 2 or any(e.typ in ("NoneType", "EmptyDict", "EmptyList") for e in els):
+            self.bad(node, "tuple display with fewer than two elements or an element of unknown type")
+        return V("(" + ", ".join(e.term for e in els) + ")", " × ".join(e.typ if " " not in e.typ else f"({e.typ})" for e in els))
+
+    def e_List(self, node, env):
+        if not node.elts:
+            return V("[]", "EmptyList")
+        els = [self.expr(e, env) for e in node.elts]
+        t = els[0].typ
+        for e in els[1:]:
+            t = self.join_type(t, e.typ, node)
+        return V("[" + ", ".join(self.coerce(e, t, node) for e in els) + "]", f"List {t}" if " " not in t else f"List ({t})")
 
     def e_Dict(self, node, env):
         if node.keys:
@@ -425,7 +448,7 @@ class Translator:
         return V(f"(if {c.term} then {self.coerce(a, t, node)} else {self.coerce(b, t, node)})", t, a.nn and b.nn)
 
     def join_type(self, a, b, node):
-        if a == b:
+        if a == b or b is None:
             return a
         if is_int(a) and is_int(b):
             return "Int"
@@ -486,6 +509,21 @@ class Translator:
             if not (x.typ == "Bytes" or x.typ.startswith("List ")):
                 self.bad(node, f"len of {x.typ}")
             return V(f"(List.length {x.term})", "Nat", True)
+        if fname == "bool" and len(node.args) == 1 and not kw:
+            x = self.expr(node.args[0], env)
+            if x.typ == "Bool":
+                return x
+            if is_int(x.typ):
+                return V(f"(decide ({x.term} ≠ 0))", "Bool")
+            if x.typ == "Bytes" or x.typ.startswith("List "):
+                return V(f"(!(List.isEmpty {x.term}))", "Bool")
+            self.bad(node, f"bool() of {x.typ}")
+        if fname in ("bytes", "bytearray", "copy.deepcopy") and len(node.args) == 1 and not kw:
+            # a bytes-like VALUE: the copy is the same value (mutation is only translated for locals this function created)
+            x = self.expr(node.args[0], env)
+            if x.typ == "Bytes":
+                return V(x.term, "Bytes")
+            self.bad(node, f"{fname}() of {x.typ}")
         if fname == "int" and not kw:
             if len(node.args) == 1:
                 x = self.expr(node.args[0], env)
@@ -590,8 +628,8 @@ class Translator:
         """env after `target = v`, and the `let` line"""
         env = dict(env)
         if isinstance(target, ast.Name):
-            if v.typ in ("NoneType", "EmptyDict"):
-                self.bad(node, "a local of unknown type (assigned None or {})")
+            if v.typ in ("NoneType", "EmptyDict", "EmptyList"):
+                self.bad(node, "a local of unknown type (assigned None, {} or [])")
             n = lname(target.id)
             if target.id in self.reserved or not (lname_ok(target.id) or target.id in self.synthetic):
                 self.bad(node, f"local `{target.id}` clashes with a Lean name of the spec or of the emitted text")
@@ -617,10 +655,49 @@ class Translator:
             if isinstance(v, (ast.Name, ast.Constant)) or (isinstance(v, (ast.List, ast.Dict, ast.Tuple)) and not ast.unparse(v).strip("[]{}()")):
                 return self.block(rest, env, frame)
             self.bad(st, "write to an ignored attribute whose right-hand side is not a name, constant or empty display")
+        tg = st.targets[0]
+        if isinstance(tg, ast.Subscript) and isinstance(tg.value, ast.Name) and self.key(tg) not in self.places:
+            return self.subscript_assign(st, tg, rest, env, frame)
+        if isinstance(st.value, ast.Name) and st.value.id in self.owned:
+            self.bad(st, "a second name for a bytearray this function mutates (aliasing)")
         v, hs = self.eval(st.value, env)
+        if isinstance(tg, ast.Name):
+            fresh = (isinstance(st.value, ast.Call) and self.key(st.value.func) in ("bytearray", "copy.deepcopy")
+                     and v.typ == "Bytes")
+            (self.owned.add if fresh else self.owned.discard)(tg.id)
 
         def inner():
-            env2, line = self.bind(st.targets[0], v, env, st)
+            env2, line = self.bind(tg, v, env, st)
+            return line + "\n" + self.block(rest, env2, frame)
+        return self.with_hoists(hs, env, frame, inner)
+
+    def subscript_assign(self, st, tg, rest, env, frame):
+        """`x[a:b] = v` / `x[i] = v` on a bytearray local created in this function (`bytearray(…)`, `copy.deepcopy(…)`)"""
+        name = tg.value.id
+        if name not in self.owned or name not in env or env[name].typ != "Bytes":
+            self.bad(st, "subscript assignment to anything but a bytearray local this function created")
+        x = env[name]
+        saved, self.hoists = self.hoists, []
+        try:
+            if isinstance(tg.slice, ast.Slice):
+                if tg.slice.step is not None or tg.slice.lower is None or tg.slice.upper is None:
+                    self.bad(st, "slice assignment with a step or an omitted bound")
+                lo, hi, v = self.expr(tg.slice.lower, env), self.expr(tg.slice.upper, env), self.expr(st.value, env)
+                if not (is_int(lo.typ) and lo.nn and is_int(hi.typ) and hi.nn and v.typ == "Bytes"):
+                    self.bad(st, "slice assignment with bounds not known to be ≥ 0 or a value that is not bytes")
+                new = V(f"(PyRt.setSlice {x.term} {self.to_nat(lo)} {self.to_nat(hi)} {v.term})", "Bytes")
+            else:
+                # Python evaluates the right-hand side first, then the index
+                v, i = self.expr(st.value, env), self.expr(tg.slice, env)
+                if not (is_int(i.typ) and is_int(v.typ)):
+                    self.bad(st, "item assignment with an index or value that is not an int")
+                new = V(self.hoist(f"PyRt.setItemE {x.term} {self.to_int(i)} {self.to_int(v)}", "Bytes", st), "Bytes")
+            hs = self.hoists
+        finally:
+            self.hoists = saved
+
+        def inner():
+            env2, line = self.bind(tg.value, new, env, st)
             return line + "\n" + self.block(rest, env2, frame)
         return self.with_hoists(hs, env, frame, inner)
 
@@ -667,6 +744,21 @@ class Translator:
                 return line + "\n" + self.block(rest, env2, frame)
             return self.with_hoists(hs, env, frame, inner)
         k = self.key(st)
+        if k in self.spec.get("drop_calls", ()):
+            return self.block(rest, env, frame)              # the spec declares this call outside the model
+        c = st.value
+        if (isinstance(c, ast.Call) and isinstance(c.func, ast.Attribute) and c.func.attr == "extend" and len(c.args) == 1
+                and not c.keywords and isinstance(c.func.value, ast.Name) and c.func.value.id in self.owned
+                and c.func.value.id in env):
+            v, hs = self.eval(c.args[0], env)
+            if v.typ != "Bytes":
+                self.bad(st, f"extend() with {v.typ}")
+            x = env[c.func.value.id]
+
+            def inner():
+                env2, line = self.bind(c.func.value, V(f"({x.term} ++ {v.term})", "Bytes"), env, st)
+                return line + "\n" + self.block(rest, env2, frame)
+            return self.with_hoists(hs, env, frame, inner)
         if k in self.actions:
             env2 = dict(env)
             env2["__acts"] = V("acts'", env["__acts"].typ, False)
@@ -694,6 +786,8 @@ class Translator:
         for s in stmts:
             if isinstance(s, (ast.Assign, ast.AugAssign, ast.AnnAssign)):
                 for t in (s.targets if isinstance(s, ast.Assign) else [s.target]):
+                    if isinstance(t, ast.Subscript) and isinstance(t.value, ast.Name) and self.key(t) not in self.places:
+                        t = t.value
                     key = t.id if isinstance(t, ast.Name) else ("place", self.key(t))
                     if key not in acc:
                         acc.append(key)
@@ -703,10 +797,14 @@ class Translator:
             elif isinstance(s, ast.Match):
                 for c in s.cases:
                     self.assigned(c.body, acc)
-            elif isinstance(s, ast.For):
+            elif isinstance(s, (ast.For, ast.While)):
                 self.assigned(s.body, acc)
             elif isinstance(s, ast.Expr) and self.key(s) in self.actions and "__acts" not in acc:
                 acc.append("__acts")
+            elif (isinstance(s, ast.Expr) and isinstance(s.value, ast.Call) and isinstance(s.value.func, ast.Attribute)
+                  and s.value.func.attr == "extend" and isinstance(s.value.func.value, ast.Name)):
+                if s.value.func.value.id not in acc:
+                    acc.append(s.value.func.value.id)
             elif self.append_call(s) is not None and ("place", self.append_call(s)[0]) not in acc:
                 acc.append(("place", self.append_call(s)[0]))
         return acc
@@ -764,76 +862,150 @@ class Translator:
             ast.fix_missing_locations(n)
         return self.block(new + list(rest), env, frame)
 
+    def loop_iter(self, st, env):
+        """the iterable of a `for`: → (Lean list term, [(python name, lean type, nn)] bound per element, hoists)"""
+        it, tg = st.iter, st.target
+
+        def names(t):
+            ns = [t] if isinstance(t, ast.Name) else (list(t.elts) if isinstance(t, ast.Tuple) else None)
+            if ns is None or not all(isinstance(n, ast.Name) for n in ns):
+                self.bad(st, "loop target other than a name or a tuple of names")
+            for n in ns:
+                if n.id in self.reserved or not lname_ok(n.id):
+                    self.bad(st, f"loop variable `{n.id}` clashes with a Lean name of the spec or of the emitted text")
+            return [n.id for n in ns]
+        if isinstance(it, ast.Call) and self.key(it.func) == "range" and 1 <= len(it.args) <= 3 and not it.keywords:
+            (nm,) = names(tg) if isinstance(tg, ast.Name) else (None,)
+            if nm is None:
+                self.bad(st, "tuple target over range()")
+            lo_node = it.args[0] if len(it.args) >= 2 else ast.Constant(value=0)
+            hi_node = it.args[1] if len(it.args) >= 2 else it.args[0]
+            lo, hs1 = self.eval(lo_node, env)
+            hi, hs2 = self.eval(hi_node, env)
+            if not (is_int(lo.typ) and is_int(hi.typ)):
+                self.bad(st, "range bounds that are not ints")
+            if len(it.args) == 3:
+                stp, hs3 = self.eval(it.args[2], env)
+                if not (stp.lit is not None and stp.lit > 0 and lo.typ == "Nat" and hi.typ == "Nat") or hs3:
+                    self.bad(st, "range() with a step other than a positive literal over bounds known to be ≥ 0")
+                return f"(PyRt.rangeStep {lo.term} {hi.term} {stp.lit})", [(nm, "Nat", True)], hs1 + hs2
+            if lo.typ == "Nat" and hi.typ == "Nat":
+                return f"(List.range' {lo.term} ({hi.term} - {lo.term}))", [(nm, "Nat", True)], hs1 + hs2
+            return f"(PyRt.rangeL {self.to_int(lo)} {self.to_int(hi)})", [(nm, "Int", lo.nn)], hs1 + hs2
+        if isinstance(it, ast.Call) and self.key(it.func) == "enumerate" and len(it.args) == 1 and not it.keywords:
+            x, hs = self.eval(it.args[0], env)
+            ns = names(tg)
+            if x.typ != "Bytes" or len(ns) != 2:
+                self.bad(st, "enumerate() of anything but bytes, or not unpacked into two names")
+            return f"(PyRt.enumFrom 0 {x.term})", [(ns[0], "Nat", True), (ns[1], "Nat", True)], hs
+        x, hs = self.eval(it, env)
+        if x.typ == "Bytes" and isinstance(tg, ast.Name):
+            return f"(PyRt.bytesNat {x.term})", [(names(tg)[0], "Nat", True)], hs
+        et = elem_type(x.typ) if x.typ.startswith("List ") else None
+        if et is not None:
+            ns = names(tg)
+            parts = [p.strip() for p in et.split("×")] if len(ns) > 1 else [et]
+            if len(parts) != len(ns):
+                self.bad(st, f"loop target does not match the element type {et}")
+            return x.term, [(n, t, t == "Nat") for n, t in zip(ns, parts)], hs
+        self.bad(st, "loop over anything but range(), enumerate(bytes), bytes or a list of the spec")
+
     def s_For(self, st, rest, env, frame):
         if st.orelse:
             self.bad(st, "for … else")
-        if not isinstance(st.target, ast.Name):
-            self.bad(st, "loop target other than a name")
-        it = st.iter
-        if not (isinstance(it, ast.Call) and self.key(it.func) == "range" and 1 <= len(it.args) <= 2 and not it.keywords):
-            self.bad(st, "loop over anything but range(a[, b])")
-        for n in ast.walk(ast.Module(body=st.body, type_ignores=[])):
-            if isinstance(n, (ast.Return, ast.Break, ast.Continue)):
-                self.bad(n, "return/break/continue inside a loop body")
-        lo_node = it.args[0] if len(it.args) == 2 else ast.Constant(value=0)
-        hi_node = it.args[-1]
-        lo, hs1 = self.eval(lo_node, env)
-        hi, hs2 = self.eval(hi_node, env)
-        if not (is_int(lo.typ) and is_int(hi.typ)):
-            self.bad(st, "range bounds that are not ints")
-        i = lname(st.target.id)
-        if st.target.id in self.reserved or not lname_ok(st.target.id):
-            self.bad(st, f"loop variable `{st.target.id}` clashes with a Lean name of the spec or of the emitted text")
+        lst, bound, hs = self.loop_iter(st, env)
+        ety = " × ".join(ty_arg(t) if " " in ty(t) else ty(t) for _, t, _ in bound)
+        if len(bound) == 1:
+            binder, pre = f"({lname(bound[0][0])} : {ety})", ""
+        else:
+            binder = f"(py_i : {ety})"
+            pre = "".join(f"let {lname(n)} : {ty(t)} := py_i" + ".2" * k + (".1" if k < len(bound) - 1 else "") + "\n"
+                          for k, (n, t, _) in enumerate(bound))
+        return self.with_hoists(hs, env, frame, lambda: self.loop_core(
+            st, rest, env, frame, bound, lambda init, fn, step: (
+                (f"PyRt.forS {lst} {init} {fn}") if step else (lst, init, fn)), binder, pre))
 
-        def inner():
-            if lo.typ == "Nat" and hi.typ == "Nat":
-                rng, ityp = f"(List.range' {lo.term} ({hi.term} - {lo.term}))", "Nat"
-            else:
-                rng, ityp = f"(PyRt.rangeL {self.to_int(lo)} {self.to_int(hi)})", "Int"
-            mod = [m for m in self.assigned(st.body, []) if m in env]      # loop state; other assigned names are loop-local
-            envl = dict(env)
-            for _ in range(3):
-                # types / signs of the state at the head of the body must be what the body leaves (loop invariant)
-                envb = dict(envl)
-                envb[st.target.id] = V(i, ityp, ityp == "Nat" or lo.nn)
-                for m in mod:
-                    envb[m] = V(self.state_name(m), envl[m].typ, envl[m].nn)
-                lf = LoopFrame(self, mod)
-                saved = (self.tmp, self.raises)
-                self.raises = False
-                body = self.block(st.body, envb, lf)
-                body_raises = self.raises
-                stable = all(self.join_type(envl[m].typ, t, st) == envl[m].typ and (not envl[m].nn or n)
-                             for m, (t, n) in zip(mod, lf.result_types()))
-                if stable:
-                    self.raises = saved[1] or body_raises
-                    break
-                for m, (t, n) in zip(mod, lf.result_types()):
-                    jt = self.join_type(envl[m].typ, t, st)
-                    envl[m] = V(self.coerce(envl[m], jt, st), jt, envl[m].nn and n)
-                self.tmp, self.raises = saved
-            else:
-                self.bad(st, "loop state types do not stabilise")
-            tys = [ty(envl[m].typ) for m in mod]
-            sty = " × ".join(tys) if tys else "Unit"
-            proj = lambda j: "py_s" if len(mod) == 1 else ("py_s" + ".2" * j + (".1" if j < len(mod) - 1 else ""))
-            unpack = "".join(f"let {self.state_name(m)} : {ty(envl[m].typ)} := {proj(j)}\n" for j, m in enumerate(mod))
-            init = "(" + ", ".join(envl[m].term for m in mod) + ")" if mod else "()"
-            body = lf.fill(body, [envl[m].typ for m in mod], body_raises)
-            fn = f"(fun (py_s : {sty}) ({i} : {ityp}) =>\n{ind(unpack + body, 4)})"
-            env2 = dict(env)
+    def s_While(self, st, rest, env, frame):
+        if st.orelse:
+            self.bad(st, "while … else")
+        fuels = self.spec.get("fuel", {})
+        hit = [v for k, v in fuels.items() if ast.unparse(st).startswith(k)]
+        if len(hit) != 1:
+            self.bad(st, "while loop for which the spec gives no fuel expression (an upper bound of the number of rounds; "
+                         "running out of it is the distinct result `.fuel`, which the theorem must exclude)")
+        fuel, hs = self.eval(ast.parse(hit[0], mode="eval").body, env)
+        if hs or not fuel.nn:
+            self.bad(st, "fuel expression that may raise or is not known to be ≥ 0")
+        return self.loop_core(st, rest, env, frame, [], None, None, "", fuel=self.to_nat(fuel))
+
+    def loop_core(self, st, rest, env, frame, bound, mk, binder, pre, fuel=None):
+        """shared by `for` and `while`: loop state = the variables assigned in the body that exist before the loop"""
+        has_ret = False
+        for n in ast.walk(ast.Module(body=st.body, type_ignores=[])):
+            if isinstance(n, (ast.Break, ast.Continue)):
+                self.bad(n, "break/continue inside a loop body")
+            if isinstance(n, (ast.For, ast.While)) and any(isinstance(m, ast.Return) for m in ast.walk(n)):
+                self.bad(n, "return inside a nested loop")
+            has_ret = has_ret or isinstance(n, ast.Return)
+        step = has_ret or fuel is not None
+        mod = [m for m in self.assigned(st.body, []) if m in env]      # loop state; other assigned names are loop-local
+        envl = dict(env)
+        for _ in range(3):
+            # types / signs of the state at the head of the body must be what the body leaves (loop invariant)
+            envb = dict(envl)
+            for n, t, nn in bound:
+                envb[n] = V(lname(n), t, nn)
             for m in mod:
-                env2[m] = V(self.state_name(m), envl[m].typ, envl[m].nn)
-            for n in self.assigned(st.body, []) + [st.target.id]:
-                if n not in mod and n in env2:
-                    del env2[n]
-            if st.target.id in env2:
-                del env2[st.target.id]                               # bound after the loop only if it ran: not usable
-            if body_raises:
-                return (f"PyRt.tryE (PyRt.forE {rng} {init} {fn}) (fun py_e => {frame.raise_('py_e', env)}) (fun py_s =>\n"
-                        + ind(unpack + self.block(rest, env2, frame)) + ")")
-            return (f"let py_s : {sty} := List.foldl {fn} {init} {rng}\n" + unpack + self.block(rest, env2, frame))
-        return self.with_hoists(hs1 + hs2, env, frame, inner)
+                envb[m] = V(self.state_name(m), envl[m].typ, envl[m].nn)
+            lf = LoopFrame(self, mod, frame if step else None)
+            saved = (self.tmp, self.raises)
+            self.raises = False
+            cond = None
+            if fuel is not None:
+                cond = self.strict(lambda: self.expr(st.test, envb))
+                if cond.typ != "Bool":
+                    self.bad(st.test, f"condition of type {cond.typ}")
+            body = self.block(st.body, envb, lf)
+            body_raises = self.raises
+            stable = all(self.join_type(envl[m].typ, t, st) == envl[m].typ and (not envl[m].nn or n)
+                         for m, (t, n) in zip(mod, lf.result_types()))
+            if stable:
+                self.raises = saved[1] or body_raises or step
+                break
+            for m, (t, n) in zip(mod, lf.result_types()):
+                jt = self.join_type(envl[m].typ, t, st)
+                envl[m] = V(self.coerce(envl[m], jt, st), jt, envl[m].nn and n)
+            self.tmp, self.raises = saved
+        else:
+            self.bad(st, "loop state types do not stabilise")
+        tys = [ty_arg(envl[m].typ) if " " in ty(envl[m].typ) else ty(envl[m].typ) for m in mod]
+        sty = " × ".join(tys) if tys else "Unit"
+        proj = lambda j: "py_s" if len(mod) == 1 else ("py_s" + ".2" * j + (".1" if j < len(mod) - 1 else ""))
+        unpack = "".join(f"let {self.state_name(m)} : {ty(envl[m].typ)} := {proj(j)}\n" for j, m in enumerate(mod))
+        init = "(" + ", ".join(envl[m].term for m in mod) + ")" if mod else "()"
+        body = lf.fill(body, [envl[m].typ for m in mod], body_raises, step)
+        env2 = dict(env)
+        for m in mod:
+            env2[m] = V(self.state_name(m), envl[m].typ, envl[m].nn)
+        for n in self.assigned(st.body, []) + [b[0] for b in bound]:
+            if n not in mod and n in env2:
+                del env2[n]                                          # bound after the loop only if it ran: not usable
+        after = lambda: ind(unpack + self.block(rest, env2, frame))
+        if fuel is not None:
+            fn = f"(fun (py_s : {sty}) =>\n{ind(unpack + body, 4)})"
+            cf = f"(fun (py_s : {sty}) =>\n{ind(unpack + cond.term, 4)})"
+            loop = f"PyRt.whileS {fuel} {init} {cf} {fn}"
+        else:
+            fn = f"(fun (py_s : {sty}) {binder} =>\n{ind(unpack + pre + body, 4)})"
+            loop = mk(init, fn, step)
+        if step:
+            return (f"PyRt.loopS ({loop}) (fun py_e => {frame.raise_('py_e', env)}) (fun py_r => py_r) (fun py_s =>\n"
+                    + after() + ")")
+        lst, init, fn = loop
+        if body_raises:
+            return (f"PyRt.tryE (PyRt.forE {lst} {init} {fn}) (fun py_e => {frame.raise_('py_e', env)}) (fun py_s =>\n"
+                    + after() + ")")
+        return (f"let py_s : {sty} := List.foldl {fn} {init} {lst}\n" + unpack + self.block(rest, env2, frame))
 
     def state_name(self, m):
         if m == "__acts":
@@ -900,15 +1072,20 @@ class JoinFrame(Frame):
 
 
 class LoopFrame(Frame):
-    """a loop body: ends in the state tuple (wrapped in `.ok` when the body can raise)"""
-    def __init__(self, tr, mod):
-        self.tr, self.mod, self.ends = tr, mod, []
+    """a loop body: ends in the state tuple (wrapped in `.ok` when the body can raise; `.ok (.next …)` in a loop that can
+    be left by `return` or is a `while`: there `return` ends in `.ok (.ret <the definition's result>)`)"""
+    def __init__(self, tr, mod, parent=None):
+        self.tr, self.mod, self.ends, self.parent = tr, mod, [], parent
 
     def fall(self, env):
         self.ends.append(dict(env))
         return f"\0L{id(self)}_{len(self.ends) - 1}\0"
 
-    def ret(self, val, env, node): self.tr.bad(node, "return inside a loop body")
+    def ret(self, val, env, node):
+        if self.parent is None:
+            self.tr.bad(node, "return inside a loop body")
+        return f".ok (.ret {self.parent.ret(val, env, node)})"
+
     def cont(self, env, node): self.tr.bad(node, "continue inside a loop body")
     def raise_(self, e, env): return f".error {e}"
 
@@ -919,13 +1096,15 @@ class LoopFrame(Frame):
             for e in self.ends:
                 t = e[m].typ if t is None else self.tr.join_type(t, e[m].typ, None)
                 nn = nn and e[m].nn
+            if t is None:                      # every path through the body returns
+                t, nn = None, True
             out.append((t, nn))
         return out
 
-    def fill(self, body, typs, raises):
+    def fill(self, body, typs, raises, step=False):
         for j, e in enumerate(self.ends):
             tup = "(" + ", ".join(self.tr.coerce(e[m], t, None) for m, t in zip(self.mod, typs)) + ")" if self.mod else "()"
-            body = body.replace(f"\0L{id(self)}_{j}\0", f".ok {tup}" if raises else tup)
+            body = body.replace(f"\0L{id(self)}_{j}\0", f".ok (.next {tup})" if step else (f".ok {tup}" if raises else tup))
         return body
 
 
@@ -955,11 +1134,15 @@ class TopFrame(Frame):
 
     def result(self, val, env, err=None):
         tr = self.tr
+        if err is not None and tr.spec.get("raise_state") is False:
+            return f"(.error {err})"                       # a constructor: the object under construction is discarded
         st = self.state(env)
         if err is not None:
             return f"(.raised {err} {st})" if st else f"(.error {err})"
         if st is None:
             return f"(.ok {val})" if tr.raises_final else val
+        if tr.raises_final and tr.spec.get("raise_state") is False:
+            return f"(.ok {st})" if tr.value_type == "Unit" else f"(.ok ({val}, {st}))"
         if tr.raises_final:
             return f"(.ok {val} {st})"
         return st if tr.value_type == "Unit" else f"({val}, {st})"
@@ -1136,8 +1319,9 @@ def _translate(tr, func, spec, assume_raises):
         text = tr.block(list(body), env, top)
         vt = tr.value_type
         if stateful:
-            rtype = (f"PyRt.Res {tr.name}.St {ty_arg(vt)}" if tr.raises_final
-                     else (f"{tr.name}.St" if vt == "Unit" else f"{ty_arg(vt)} × {tr.name}.St"))
+            plain = f"{tr.name}.St" if vt == "Unit" else f"({ty_arg(vt)} × {tr.name}.St)"
+            rtype = ((f"Except PyRt.Err {plain}" if spec.get("raise_state") is False else f"PyRt.Res {tr.name}.St {ty_arg(vt)}")
+                     if tr.raises_final else (f"{tr.name}.St" if vt == "Unit" else f"{ty_arg(vt)} × {tr.name}.St"))
         else:
             rtype = f"Except PyRt.Err {ty_arg(vt)}" if tr.raises_final else vt
     out = []
